@@ -122,6 +122,15 @@ Theorem C03_hlane_no_stuck_thread : forall F, forest_ok F -> forall s t,
 Proof. exact no_stuck_thread. Qed.
 Print Assumptions C03_hlane_no_stuck_thread.
 
+(* ... the same naming the thread waited for: when t cannot step, t is a drainer at get_head / pop_head of a lane l, and u
+   is THE enqueuer whose top frame is the push onto l at PA_link for an entry of l's list that is not linked yet; u's next
+   step publishes that link *)
+Theorem C03_hlane_no_stuck_thread_named : forall F, forest_ok F -> forall s t,
+  reach F s -> valid_tid t -> stk s t <> [] ->
+  enabled F s t \/ exists u, u <> t /\ waits_for_link s t u /\ enabled F s u.
+Proof. exact no_stuck_thread_named. Qed.
+Print Assumptions C03_hlane_no_stuck_thread_named.
+
 Theorem C03_hlane_async_never_blocks : forall F, forest_ok F -> forall s t l p r,
   reach F s -> stk s t = (l, p) :: r -> is_drain p = false -> enabled F s t.
 Proof. exact async_never_blocks. Qed.
@@ -131,8 +140,17 @@ Print Assumptions C03_hlane_async_never_blocks.
       push on lane l with T l = 24 * 3 ^ depth l; 8 per item and 18 per lane object in a list; T l on the DIRTY bit of a
       LOCKED lane; 20 per bottom in its root queue) that every step and every worker pick-up strictly decreases and only a
       new dispatch_async raises.  The DIRTY retry of a bottom and the invoke_finish re-enqueue of an inner lane are paid
-      for by the MAKE_DIRTY wakeup that caused them.  For executions confined to a finite, target-closed set Ls of lanes
-      and a finite set L of threads: *)
+      for by the MAKE_DIRTY wakeup that caused them.  WHAT IS COUNTED: actions of the MODEL.  In the model an
+      os_atomic_rmw_loop is one step (its successful compare-exchange: failed attempts are not steps) and a wait
+      (_dispatch_wait_for_enqueuer at get_head / pop_head) is a disabled step, not a sequence of steps: livelock by endless
+      CAS retries or by spinning is excluded by construction of the model, not by these theorems; what they exclude is
+      livelock of the PROTOCOL (DIRTY retries, re-enqueues, restarts, pushes chasing each other through the levels).
+      For executions confined to a finite, target-closed set Ls of lanes and a finite set L of threads: *)
+(* the hypothesis Inv3 of the theorems below holds on every reachable state *)
+Theorem C03_hlane_inv3_reachable : forall F, forest_ok F -> forall s, reach F s -> Inv3 F s.
+Proof. exact Inv3_reachable. Qed.
+Print Assumptions C03_hlane_inv3_reachable.
+
 Theorem C03_hlane_step_decreases : forall F, forest_ok F -> forall Ls L, NoDup Ls -> NoDup L -> forall s t o s',
   Inv3 F s -> In t L -> (forall l p, In (l, p) (stk s t) -> In l Ls) -> gstep F s t o = Some s' ->
   Phi F Ls L s' + 1 <= Phi F Ls L s.
@@ -171,9 +189,14 @@ Theorem C03_hlane_worker_can_begin : forall F s t b f,
 Proof. exact worker_can_begin. Qed.
 Print Assumptions C03_hlane_worker_can_begin.
 
-(* 7. the replay machinery (Model/HLaneR.v, used by the correspondence on recorded rounds): the scheduler only ever takes
-      model steps, so every state it reproduces is reachable; the boolean invariant it evaluates on those states is true on
-      every reachable state; the boolean test of a round's forest table decides forest_ok *)
+(* 7. the replay machinery (Model/HLaneR.v, used by the correspondence on recorded rounds).  What these three theorems say
+      is modest: the scheduler only ever takes model steps, so every state it passes through is reachable (true for ANY
+      action list it manages to execute); inv_b is true on every reachable state — so evaluating inv_b on replayed states
+      cannot fail unless the replay machinery itself is inconsistent with these proofs: it is a consistency check of the
+      replay, not a test of the library; the boolean test of a round's forest table decides forest_ok.  The content of a
+      replay is TRACE INCLUSION, established by the executable HLaneR.try_act / sched (every recorded operation must be an
+      enabled model step producing the recorded stack shape, entry and dq_state word) together with the untrusted Python
+      abstraction of events into actions (lib/hlane_replay.py): it is a run-time tie, not a theorem *)
 Theorem C03_hlane_replay_reach : forall F chk every fuel w cs s qs ord done bad s' d o b q,
   reach F s -> sched F chk every fuel w cs s qs ord done bad = (s', d, o, b, q) -> reach F s'.
 Proof. exact sched_reach. Qed.
